@@ -26,13 +26,26 @@ func (w *MultiplexWriter) Write(p []byte) (n int, err error) {
 }
 
 func (w *MultiplexWriter) WriteMsg(tag uint8, p []byte) (n int, err error) {
-	header := uint32(mplexBase+tag)<<24 | uint32(len(p))
-	// log.Printf("len %d (hex %x)", len(p), uint32(len(p)))
-	// log.Printf("header=%v (%x)", header, header)
-	if err := binary.Write(w.Writer, binary.LittleEndian, header); err != nil {
-		return 0, err
+	// The frame header has only 24 bits for the payload length (and our own
+	// reader accepts at most maxMessageSize), so split larger payloads into
+	// multiple frames instead of letting the length spill into the tag byte.
+	for {
+		l := min(len(p), maxMessageSize)
+		header := uint32(mplexBase+tag)<<24 | uint32(l)
+		// log.Printf("header=%v (%x)", header, header)
+		if err := binary.Write(w.Writer, binary.LittleEndian, header); err != nil {
+			return n, err
+		}
+		m, err := w.Writer.Write(p[:l])
+		n += m
+		if err != nil {
+			return n, err
+		}
+		p = p[l:]
+		if len(p) == 0 {
+			return n, nil
+		}
 	}
-	return w.Writer.Write(p)
 }
 
 type MultiplexReader struct {
